@@ -15,6 +15,7 @@ mod suite_build;
 mod suite_entity;
 mod suite_ffixed;
 mod suite_fmap;
+mod suite_fclone;
 mod suite_forest;
 mod suite_rt;
 mod idmap_hist;
@@ -59,6 +60,7 @@ fn main() {
         "ffixed" => suite_ffixed::run(seed, count, tier, &mut sink),
         "fmap" => suite_fmap::run(seed, count, tier, &mut sink),
         "build" => suite_build::run(seed, count, tier, &mut sink),
+        "fclone" => suite_fclone::run(seed, count, tier, &mut sink),
         _ => {
             eprintln!("unknown suite {}", suite);
             std::process::exit(2);
